@@ -6,7 +6,8 @@
 (* engine's union / intersect / diff / complement.  TLC evaluates the      *)
 (* independent membership function SemDump!DMem on every dump for a        *)
 (* universe of values (exact witnesses of A and B plus fixed extras) and    *)
-(* requires the Boolean laws, under the open and the exact reading of the  *)
+(* requires the Boolean laws (also for derived operands: the engine's own   *)
+(* complements of A and B, field der), under the open and the exact reading of the  *)
 (* atoms, and that the operand dumps mean what the source types mean.      *)
 (***************************************************************************)
 EXTENDS SemDump, Json, IOUtils, TLCExt
@@ -30,7 +31,7 @@ Complaints(r) ==
           \cup (IF r.i.ok /\ DMem(v, r.i.st, Atoms, open) # (ma /\ mb) THEN {"intersect-is-not-set-intersection"} ELSE {})
           \cup (IF r.d.ok /\ DMem(v, r.d.st, Atoms, open) # (ma /\ ~mb) THEN {"diff-is-not-set-difference"} ELSE {})
           \cup (IF r.c.ok /\ DMem(v, r.c.st, Atoms, open) # ~ma THEN {"complement-is-not-set-complement"} ELSE {})
-          \cup (IF v # ABSENT /\ ma # SMem(v, A, Env, ~open) THEN {"operand-semtype-differs-from-its-source-type"} ELSE {})
+          \cup (IF r.der = "A,B" /\ v # ABSENT /\ ma # SMem(v, A, Env, ~open) THEN {"operand-semtype-differs-from-its-source-type"} ELSE {})
         : v \in U, open \in BOOLEAN }
   \cup (IF ~(r.u.ok /\ r.i.ok /\ r.d.ok /\ r.c.ok) THEN {"operation-failed"} ELSE {})
 
